@@ -392,7 +392,7 @@ func classifyC16(sc *Scenario, h *History, st *Stats) string {
 func init() {
 	register(&Property{
 		ID: "C16", Level: "exploration",
-		Rule:     "real smtp.Client (NewClient/NewClientLMTP, Mail, Rcpt x1-3, Data or LMTPData, Close twice, Noop, Quit) against the real smtp.Server over the simulated transport; body = every string over the tokens {'.', LF, CRLF, x} up to length 7 (sweep; sampled in quick) or a seeded 8-bit body up to ~9000 octets with CR only inside CRLF and embedded end-of-data look-alikes; partition into Write calls: one, every 2-split, byte-wise, random sizes; backend verdict accept/reject; the transport re-cuts the client's writes into drawn segment sizes. Non-trivial: the body has a line starting with '.', a bare LF, a look-alike, or no final newline; distinct by (class string of the body, partition, mode, verdict, callback, recipients).",
+		Rule:     "real smtp.Client (NewClient/NewClientLMTP, Mail, Rcpt x1-3, Data or LMTPData, Close twice, Noop, Quit) against the real smtp.Server over the simulated transport; body = every string over the tokens {'.', LF, CRLF, x} up to length 7 (sweep; sampled in quick) or a seeded 8-bit body up to ~9000 octets with CR only inside CRLF and embedded end-of-data look-alikes; partition into Write calls: one, every 2-split, byte-wise, random sizes; backend verdict accept/reject; the transport re-cuts the client's writes into drawn segment sizes. Non-trivial: the body has a line starting with '.', a bare LF, a look-alike, or no final newline; distinct by (class string of the body, partition, mode, verdict, callback, recipients). Replies re-cut by the network; a slow producer (6 min between writes) under WriteTimeout 0/30 s/10 min; a fault stratum in which the exchange is broken off (Server.Close, backend panic, failing or blocked reply writes) and only 'no success the backend did not grant, no call outlasting the client's time limits' is judged.",
 		Gen:      genC16,
 		Check:    checkC16,
 		Classify: classifyC16,
